@@ -145,7 +145,9 @@ def parse_edgelist(
                 line = line[:p]
             if not line:
                 continue
-        edge = line.strip().split(delimiter)
+        line = line.strip()
+        # an empty line is an edge without members, whatever the delimiter
+        edge = line.split(delimiter) if line else []
 
         if nodetype is not None:
             try:
